@@ -37,10 +37,11 @@ def spec_family(s):
 # ---------------------------------------------------------------------------------------------------------------------
 # generators
 
-def actor_sets():
+def actor_sets(max_actors=6):
     """1..6 distinct actor ids; mostly 1..k, sometimes anywhere in 0..30 (0 and 30 are the boundary values of the clock vectors)."""
-    small = st.sampled_from([3, 2, 4, 5, 6, 3, 4, 1]).map(lambda k: list(range(1, k + 1)))
-    anyw = st.lists(st.integers(0, MAX_AID), min_size=1, max_size=6, unique=True)
+    sizes = [3, 2, 4, 5, 6, 3, 4, 2, 3, 1] + ([8, 10, max_actors] if max_actors > 6 else [])
+    small = st.sampled_from(sizes).map(lambda k: list(range(1, k + 1)))
+    anyw = st.lists(st.integers(0, MAX_AID), min_size=2, max_size=max_actors, unique=True)
     edge = st.lists(st.sampled_from([0, 1, 2, 29, MAX_AID]), min_size=2, max_size=5, unique=True)
     return st.one_of(small, small, small, anyw, edge)
 
@@ -104,10 +105,10 @@ def real_specs(actors, pool):
 
 
 @st.composite
-def transition_lists(draw, max_len=40, min_len=1, flavour=None, max_kinds=4):
+def transition_lists(draw, max_len=40, min_len=1, flavour=None, max_kinds=4, max_actors=6):
     """-> (syn tables, [tspec], flavour).  Flavours: syn (synthetic only), real, mixed; real ones restricted to 1..3 families
     so that sequences are dense in dependencies, object ids from a pool of 1..3."""
-    actors = draw(actor_sets())
+    actors = draw(actor_sets(max_actors))
     fl = flavour or draw(st.sampled_from(["syn", "real", "real", "mixed"]))
     tabs = syn_tables(draw, max_kinds)
     k = len(tabs["dep"])
@@ -132,8 +133,8 @@ def transition_lists(draw, max_len=40, min_len=1, flavour=None, max_kinds=4):
 
 
 @st.composite
-def exec_cases(draw, max_len=40):
-    tabs, ts, fl = draw(transition_lists(max_len=max_len))
+def exec_cases(draw, max_len=40, max_actors=6):
+    tabs, ts, fl = draw(transition_lists(max_len=max_len, max_actors=max_actors))
     n = len(ts)
     how = draw(st.lists(st.integers(0, 19), min_size=n, max_size=n))
     ops = []
